@@ -308,6 +308,10 @@ def sc_gof_multi(cx, keys, shared, multi_constraint, n=2):
     if shared:
         members = [i for i, pb in enumerate(mu.members) if pb.ftype in ("xy", "indexed")][:2]
         S = _shared_source(cx, mu, "SA", "y", members)
+        for pb in mu.members:
+            if pb.ftype == "hist":
+                for v in pb.y:
+                    cx.assume(v > 0)
         gauss, V, r = _joint(mu, S, "y", members)
         for mn in O.leading_minors(V):
             cx.assume(mn > 0)
@@ -430,7 +434,7 @@ def scenarios(tier, seed):
                             continue
                         S.append(Scenario("ndf-multi/%s/shared-%s/multi-constraint-%s/member-constraint-%s/fix-%s" % ("-".join(map(str, members)), shared, mc, memc, fix), sc_ndf_multi, family="ndf/multi",
                                           params=dict(members=members, shared_par=shared, multi_constraint=mc, member_constraint=memc, fix=fix)))
-    for keys, shared, n in ((["xyab", "xybc-k"], False, 2), (["xyab", "xybc-k"], True, 1), (["xyab", "idba"], True, 1), (["idab", "hist"], False, 2), (["xyab", "xybc-k", "idba"], False, 2), (["xyab", "xybc-k", "idba"], True, 1)):
+    for keys, shared, n in ((["xyab", "xybc-k"], False, 2), (["xyab", "xybc-k"], True, 1), (["xyab", "idba"], True, 1), (["idab", "hist"], False, 2), (["xyab", "xybc-k", "idba"], False, 2), (["xyab", "xybc-k", "idba"], True, 1), (["xyab", "hist", "idba"], True, 1)):
         for mc in (False, True):
             S.append(Scenario("gof-multi/%s/shared-%s/multi-constraint-%s/n%d" % ("+".join(keys), shared, mc, n), sc_gof_multi, family="gof/multi", params=dict(keys=keys, shared=shared, multi_constraint=mc, n=n)))
     S.append(Scenario("twin/gof-with-determinant", sc_twin_gof_with_det, twin=True))
